@@ -83,6 +83,64 @@ class T:
         return self.short(200)
 
 
+NEG = {"!=": "==", "is not": "is", "not in": "in"}
+
+
+def _pos_cond(c: "T"):
+    """(positive condition, flipped?) -- `a != b`, `a is not b`, `a not in b`, `not x` are the negations of a positive test."""
+    flipped = False
+    while True:
+        if c.op == "cmp" and c.name in NEG:
+            c = T("cmp", NEG[c.name], c.args, node=c.node)
+            flipped = not flipped
+            continue
+        if c.op == "unary" and c.name == "Not":
+            c = c.args[0]
+            flipped = not flipped
+            continue
+        return c, flipped
+
+
+def _restrict(t: "T", ckey: str, val: bool) -> "T":
+    """t under the assumption that the (positive) condition with key `ckey` has truth value `val`."""
+    if t.op == "ifexp":
+        c, fl = _pos_cond(t.args[0])
+        if c.key() == ckey:
+            return _restrict(t.args[1] if (val != fl) else t.args[2], ckey, val)
+    if not t.args and not t.kw:
+        return t
+    return T(t.op, t.name, [_restrict(a, ckey, val) for a in t.args], {k: _restrict(v, ckey, val) for k, v in t.kw.items()}, t.node)
+
+
+def canon(t: "T", max_conds: int = 6) -> "T":
+    """Canonical form modulo the placement of conditionals: the term is Shannon-expanded over its distinct
+    (positive) `ifexp` conditions in sorted order, so  f(a if c else b) == f(a) if c else f(b),
+    `x if c else y` == `y if not c else x`, and nested tests on the same condition collapse.  Expressions are pure
+    (terms carry no effects), so the rewriting preserves the value.  Terms with more than `max_conds` distinct
+    conditions are returned unchanged."""
+    conds = {}
+    for x in t.walk():
+        if x.op == "ifexp":
+            c, _ = _pos_cond(x.args[0])
+            conds.setdefault(c.key(), c)
+    if not conds or len(conds) > max_conds:
+        return t
+
+    def build(term, keys):
+        if not keys:
+            return term
+        k = keys[0]
+        if not any(x.op == "ifexp" and _pos_cond(x.args[0])[0].key() == k for x in term.walk()):
+            return build(term, keys[1:])
+        a = build(_restrict(term, k, True), keys[1:])
+        b = build(_restrict(term, k, False), keys[1:])
+        if a.key() == b.key():
+            return a
+        return T("ifexp", None, [conds[k], a, b], node=term.node)
+
+    return build(t, sorted(conds))
+
+
 def phi(alts: List[T]) -> T:
     flat, seen = [], set()
     for a in alts:
